@@ -26,7 +26,7 @@ MANIFEST = {
             "blocks forged on a real in-process node with non-empty pools (failing transactions, size limit), events and pooled "
             "aggregate commits must be accepted by the same node's Executer; the two misbehaving-environment scenarios on real "
             "nodes; transaction execution through the in-process ABI handler.",
-    "note": "Three genuine defects repaired in /repo: maxHeightGenerated = last instead of largest height; no protection "
+    "note": "Four genuine defects repaired in /repo (the fourth: a generated block changing the validator set was rejected by the own node): maxHeightGenerated = last instead of largest height; no protection "
             "against generating again on the same or a lower tip (double forging when the own block is not processed before the "
             "next tick, contradiction after a failed block sync); ExecuteTransactionRequest.Consensus never set (nil dereference in "
             "the in-process ABI handler). Acceptance is established by running the real Executer (sampled) and by the partial "
@@ -61,8 +61,10 @@ def gen_term(r):
         if op == "forge":
             h = e["hdr"]
             forged = e["forged"] and not e.get("panic")
-            evs.append("(GForge %s %s (Build_bh %d %d %d %d) %s %s)" % (
-                cbool(e.get("lost", False)), cbool(forged), h[0], GEN, h[2], h[1], ogi(e.get("athand")), ogi(e.get("stored"))))
+            signer = e.get("signer", -1)
+            evs.append("(GForge %d %s %s (Build_bh %d %d %d %d) %s %s)" % (
+                e.get("who", 0), cbool(e.get("lost", False)), cbool(forged), h[0], signer if signer >= 0 else 99, h[2], h[1],
+                ogi(e.get("athand")), ogi(e.get("stored"))))
             if forged and not e.get("lost") and not e.get("drop"):
                 cur = [e.get("after", 0), cur[1] + 1]
                 evs.append("(GTip %s)" % tip(cur))
@@ -73,7 +75,7 @@ def gen_term(r):
             evs.append("(GSync %s)" % cbool(e.get("on", False)))
         elif op == "restart":
             evs.append("GRestart")
-    return "(%d, %s, [%s])" % (GEN, tip(r["t0"]), "; ".join(evs))
+    return "(%s, [%s])" % (tip(r["t0"]), "; ".join(evs))
 
 
 def add_failure(ck, kind, code, what_spec, what_model, case):
@@ -123,7 +125,7 @@ def evaluate(ck, recs):
             ck.count()
             forged = [e for e in r["evs"] if e["op"] == "forge" and e["forged"]]
             if len(forged) >= 2:
-                ck.nontrivial(("gen", tuple(r["t0"]), tuple((e["op"], tuple(e.get("t", [])), e.get("lost", False), e.get("drop", False)) for e in r["evs"])))
+                ck.nontrivial(("gen", tuple(r["t0"]), tuple((e["op"], tuple(e.get("t", [])), e.get("lost", False), e.get("drop", False), e.get("who", 0)) for e in r["evs"])))
             if code != 0:
                 add_failure(ck, "gen", code,
                             "generator signed contradicting headers / maxHeightGenerated below an earlier own height / info not "
@@ -146,14 +148,14 @@ def evaluate(ck, recs):
             lim = r.get("limit") or 15360
             get = lambda k, d: (r.get(k) or [])[i] if i < len(r.get(k) or []) else d
             rounds.append((r, i, "(%s, %s, %s, %s, %d, %d, %d)" % (cbool(r["forged"][i]), cbool(r["accepted"][i]), cbool(r["tipis"][i]),
-                                                                  cbool(bool(r.get("panic"))), get("payload", 0), lim, get("badin", 0))))
+                                                                  cbool(bool(r.get("panic"))), get("payload", 0), lim, get("badin", 0) + get("invalidin", 0))))
     ra = ck.coq_eval(IMPORTS, "bool * bool * bool * bool * N * N * N", "check_accept", [t for _, _, t in rounds], shard=200, tag="acc")
     if ra is not None:
         for (r, i, _), code in zip(rounds, ra):
             ck.count()
             ntx = (r.get("ntx") or [0])[min(i, len(r.get("ntx") or [0]) - 1)] if r.get("ntx") else 0
             aggh = (r.get("aggh") or [0])[min(i, len(r.get("aggh") or [0]) - 1)] if r.get("aggh") else 0
-            ck.nontrivial(("acc", r["nval"], r["pre"], r["events"], i, ntx > 0, aggh > 0, bool(r.get("badevery")), bool(r.get("limit"))))
+            ck.nontrivial(("acc", r["nval"], r["pre"], r["events"], i, ntx > 0, aggh > 0, bool(r.get("badevery")), bool(r.get("limit")), bool(r.get("execmix")), bool(r.get("nextvals"))))
             if code != 0:
                 f = dict(kind="input", key="c15:acc:spec",
                          what="block generated by forge() was not accepted by the same node's Executer, or exceeds the size limit, or "
@@ -189,7 +191,7 @@ def run(ck):
             return
         recs += r0
     if ck.tier == "quick":
-        args = ["-sel", "900", "-gen", "150", "-acc", "6"]
+        args = ["-sel", "900", "-gen", "150", "-acc", "8"]
     else:
         args = ["-sel", "20000", "-gen", "3000", "-acc", "60"]
     r1 = ck.run_harness(binp, args, timeout=1700)
